@@ -98,6 +98,13 @@ def main():
             else:
                 rv = p.set_attrs(s, hnd[c["k"]], [(ATTR[c["attr"]], enc(c["v"], c["attr"]))])
                 out = dict(rv=rvname(rv))
+        elif op == "badset":
+            if c["k"] not in hnd:
+                out = dict(rv="NOHANDLE")
+            else:
+                # an attribute a secret key does not have: refused with CKR_ATTRIBUTE_TYPE_INVALID
+                rv = p.set_attrs(s, hnd[c["k"]], [(K.CKA_LABEL, enc(7)), (K.CKA_MODULUS_BITS, 1024)])
+                out = dict(rv=rvname(rv))
         elif op == "get":
             if c["k"] not in hnd:
                 out = dict(rv="NOHANDLE")
